@@ -891,6 +891,8 @@ class PyCdlib:
         splitpath = utils.split_path(joliet_path)
         name = splitpath.pop()
 
+        if not name:
+            raise pycdlibexception.PyCdlibInvalidInput('Joliet names must be at least 1 character long')
         if len(name) > 64:
             raise pycdlibexception.PyCdlibInvalidInput('Joliet names can be a maximum of 64 characters')
         parent = self._find_joliet_record(b'/' + b'/'.join(splitpath))
@@ -912,6 +914,8 @@ class PyCdlib:
         """
         splitpath = utils.split_path(udf_path)
         name = splitpath.pop()
+        if not name:
+            raise pycdlibexception.PyCdlibInvalidInput('UDF names must be at least 1 character long')
         (parent_ident_unused, parent) = self._find_udf_record(b'/' + b'/'.join(splitpath))
 
         return (name.decode('utf-8').encode('utf-8'), parent)
